@@ -172,6 +172,9 @@ func (x *consumerController) PostStop(ctx *Context) error {
 // Receive processes controller protocol traffic, consumer confirmations,
 // lifecycle notifications, and timer ticks.
 func (x *consumerController) Receive(ctx *ReceiveContext) {
+	if verifIntercept(x, ctx) {
+		return
+	}
 	switch msg := ctx.Message().(type) {
 	case *PostStart:
 		x.handlePostStart(ctx)
